@@ -12,7 +12,7 @@
    clauses of ResponseEmit (the very operators that are the invariants of the emission machine)
    on every prefix and on the finished observation, and records the first failing clause.
      P:ExactlyOneStart  P:OnlyLastHasNoMoreBody  P:NothingAfterFinal  P:BodilessHaveNoBytes
-     P:TypelessHaveNoFrameworkType  P:OthersHaveType           (checked on every prefix)
+     P:TypelessHaveNoFrameworkType  P:OthersHaveType  P:StatusLineWellFormed   (on every prefix)
      P:Exception   an exception reached the server although no fault was injected
      P:Protocol    the protocol monitor reported an error (status line, header types, ...)
      P:Precedence  P:LengthConsistent  P:CloseExactlyOnceOnceBegun   (on the finished observation) *)
@@ -26,7 +26,7 @@ vars == <<tid, l, verdict>>
 T == Traces[tid]
 
 (* the machine's variables are bound to the observation; only the clause operators are used *)
-RE == INSTANCE ResponseEmit WITH RenderSetsType <- FALSE, BodilessByLine <- FALSE, ForgetCloseOnFault <- FALSE, StaleLengthOnRenderFault <- FALSE,
+RE == INSTANCE ResponseEmit WITH RenderSetsType <- FALSE, BodilessByLine <- FALSE, ForgetCloseOnFault <- FALSE, StaleLengthOnRenderFault <- FALSE, StatusStringAsIs <- FALSE,
           c0 <- T.c, c <- T.c, pc <- "done", ev <- T.ev, k <- 0, hand <- -1, sends <- 0,
           begun <- T.begun, closes <- T.closes, raised <- T.raised, sendFailed <- T.sendFailed
 
@@ -46,6 +46,7 @@ JudgePrefix(o) ==
     ELSE IF ~RE!BodilessHaveNoBytesC(o) THEN "P:BodilessHaveNoBytes"
     ELSE IF ~RE!TypelessHaveNoFrameworkTypeC(o) THEN "P:TypelessHaveNoFrameworkType"
     ELSE IF ~RE!OthersHaveTypeC(o) THEN "P:OthersHaveType"
+    ELSE IF ~RE!StatusLineWellFormedC(o) THEN "P:StatusLineWellFormed"
     ELSE "ok"
 
 JudgeWhole(o) ==
